@@ -60,6 +60,14 @@ def values_match(model, dec, path='$'):
     return None
 
 
+def _wrap(inner, kind):
+    o = Node(kind)
+    if kind == 'o':
+        inner.key = b'a'
+    o.kids = [inner]
+    return o
+
+
 def run_shard(shard_prop, bins, workdir, tier):
     prop, (kind, seed, count) = shard_prop
     out = ShardOut()
@@ -100,6 +108,15 @@ def run_shard(shard_prop, bins, workdir, tier):
                     o.kids = [cur]
                     cur = o
                 trees.append((['build 1 ' + to_tn(cur)], cur, 0, 'deep-%d' % k))
+        # breadth must not count as depth when the text is parsed back: many sibling containers
+        for n in (lim + 1, 2 * lim + 7):
+            for mk_elem in (lambda: Node('a'), lambda: Node('o'), lambda: _wrap(Node('a'), 'a'), lambda: _wrap(Node('a'), 'o'), lambda: _wrap(Node('o'), 'o')):
+                a = Node('a')
+                a.kids = [mk_elem() for _ in range(n)]
+                trees.append((['build 1 ' + to_tn(a)], a, 0, 'wide-%d' % n))
+            o = Node('o')
+            o.kids = [Node('a', key=b'k%d' % i) for i in range(n)]
+            trees.append((['build 1 ' + to_tn(o)], o, 0, 'wide-%d' % n))
         # strings around the printer's default buffer size; long keys
         for L in (253, 254, 255, 256, 257, 258, 510, 511, 512, 513, 1023, 1024, 1025, 5000):
             trees.append((['build 1 ' + to_tn(Node.string(b'x' * L))], Node.string(b'x' * L), 0, 'len-%d' % L))
@@ -117,7 +134,7 @@ def run_shard(shard_prop, bins, workdir, tier):
     meta = {}
     cid = 0
     for ti, (mk, model, mode, label) in enumerate(trees):
-        big = label.startswith('deep-') or label in ('len-5000', 'key-5000')
+        big = label.startswith(('deep-', 'wide-')) or label in ('len-5000', 'key-5000')
         for cfg in cfgs:
             ops = list(mk) + ['prbat 1 %d' % (mode | (4 if (thorough and not big) else 0) | (0 if prop == 'C09' else 8)), 'del 1']
             cases.append((cid, cfg, ops))
